@@ -417,6 +417,19 @@ impl<CS: CLCiphersuite> ZKPoK<CL03<CS>> {
             return false;
         }
 
+        // the two commitments only enter as bases of modular exponentiations: only their
+        // canonical residues are valid encodings (C + N would be accepted in place of C)
+        if C.value < 0 || C.value >= signer_pk.N {
+            println!("Commitment not in canonical form!");
+            return false;
+        }
+        if let (Some(C_trusted), Some(commitment_pk)) = (C_trusted, commitment_pk) {
+            if C_trusted.value < 0 || C_trusted.value >= commitment_pk.N {
+                println!("Trusted commitment not in canonical form!");
+                return false;
+            }
+        }
+
         let mut boolean_C_Ctrusted: bool = true;
         if let Some(C_trusted) = C_trusted {
             if let Some(commitment_pk) = commitment_pk {
